@@ -20,7 +20,15 @@ def main():
     with open(spath) as f:
         shard = json.load(f)
     H.open_out(opath)
+    H.PROP = prop
     sys.setrecursionlimit(5000)
+    if shard.get("vendored"):
+        H.use_vendored_copy()
+    if shard.get("pyflags"):
+        # interpreter-mode twin: any warning issued from the library's own modules (at run time or while they are compiled)
+        # is an error, as under `python -W error` / pytest's filterwarnings=error
+        import warnings
+        warnings.filterwarnings("error", module=r"(.*[/.])?code_data([./].*)?$")
     if sys.flags.bytes_warning:
         # `python -b` worker: a str/bytes comparison inside the library is an error (what `python -bb` users get),
         # the same comparison inside the harness or the standard library is not the library's business
